@@ -18,7 +18,7 @@
 static nsync_counter c;
 static int init_value, nplus, plus_done_count;
 static volatile int plus_done;
-struct call { int kind; /* '+','-','v','w' */ int ret; int inv, res; int64_t dl; int done; };
+struct call { int kind; /* '+','-','v','w' */ int ret; int inv, res; int64_t dl; int done; int after_plus; };
 #define MAXCALLS 16
 static struct call calls[MAXCALLS]; static int ncalls, stamp;
 static int zero_seen;
@@ -53,7 +53,7 @@ static void ctr_init (void) { c = nsync_counter_new (init_value); if (nplus == 0
 MC_ORACLE static int begin_call (int kind, int64_t dl) {
 	int i = ncalls++;
 	if (i >= MAXCALLS) { mc_fail ("harness: too many calls"); return 0; }
-	calls[i].kind = kind; calls[i].inv = ++stamp; calls[i].dl = dl; calls[i].done = 0;
+	calls[i].kind = kind; calls[i].inv = ++stamp; calls[i].dl = dl; calls[i].done = 0; calls[i].after_plus = plus_done;
 	return i;
 }
 MC_ORACLE static void end_call (int i, int ret, int was_zero_seen, unsigned blocks) {
@@ -63,7 +63,10 @@ MC_ORACLE static void end_call (int i, int ret, int was_zero_seen, unsigned bloc
 		if (ret != 0 && mc_now_ns () < calls[i].dl) mc_fail ("nsync_counter_wait returned non-zero (%d) before its deadline", ret);
 		if (was_zero_seen && blocks != 0) mc_fail ("a wait that started after the counter was seen at zero blocked (%u times)", blocks);
 	}
-	if (ret == 0 && plus_done) zero_seen = 1;   /* zero is final only once no '+' can follow */
+	/* zero is final only once no '+' can follow: the call that reports it must have been invoked after the
+	   last '+' returned (a decrement that took the counter to zero before a '+' and returns after it has
+	   not seen the final zero) */
+	if (ret == 0 && calls[i].after_plus) zero_seen = 1;
 }
 MC_ORACLE static int plus_finished (void) { return ++plus_done_count == nplus; }
 MC_ORACLE static int zs (void) { return zero_seen; }
